@@ -185,7 +185,7 @@ def observe(case: Dict[str, Any], obs: Any) -> Dict[str, Any]:
     reqs = b["requests"]
     insts = [{"type": i.scope.get("type"), "http_version": i.scope.get("http_version"),
               "path": i.scope.get("path"), "body": i.body()} for i in obs.instances]
-    data = conn.received()
+    data = conn.received_before_eof()
     responses: Dict[str, Any] = {}
     want_version = {"h1": "1.1", "h2": "2", "h2c": "2", "ws": "1.1"}[proto]
     if proto == "h1":
